@@ -632,6 +632,25 @@ fn extend_qb(qb: &mut QVectorBuilder, ty: &str, vals: &[i128]) {
     for_int_ty!(ty, vals, |it| qb.extend(it))
 }
 
+/// a quad structure over `base` copies of the symbol `f` followed by `tail` (hundreds of millions of symbols)
+pub fn make_bigq(kind: &str, base: usize, f: u8, tail: Vec<u8>) -> Option<Box<dyn Obj>> {
+    if kind.starts_with("QWT") {
+        let mut v: Vec<u8> = vec![f; base];
+        v.extend(tail);
+        return make_tree_t::<u8>(kind, "from_vec", v.into_iter().map(|x| x as u128).collect());
+    }
+    let mut qb = QVectorBuilder::with_capacity(base + tail.len());
+    qb.extend(std::iter::repeat(f).take(base));
+    qb.extend(tail);
+    let qv = qb.build();
+    match kind {
+        "QV" => Some(Box::new(qv)),
+        "RSQ256" => Some(Box::new(RSQVector256::from(qv))),
+        "RSQ512" => Some(Box::new(RSQVector512::from(qv))),
+        _ => None,
+    }
+}
+
 /// quad structures from a list of integers of carrier type `ty`
 pub fn make_quad(kind: &str, ty: &str, path: &str, vals: Vec<i128>) -> Option<Box<dyn Obj>> {
     if path == "default" {
